@@ -4,18 +4,17 @@ from gen import mailstore
 from harness import worlda
 
 PROP = "C04"
-CONFIG = {
-    "level": "exploration",
-    "budget": {"quick": 75, "thorough": 900},
-    "wall": 60,
-    "rule": "seeded grammar-directed histories (APPEND/STORE x {+,-,=} x SILENT/UID, body fetches, COPY/MOVE, deliveries, SEARCH by flag) over 1-3 sessions taking turns; "
-    "after every op an observer UID FETCH 1:* (FLAGS) and .mh_sequences are compared with the reference model. non-trivial = >=1 flag-changing op "
-    "acknowledged OK; distinct = distinct (actor, op-kind) sequence signatures",
-    "real": worlda.REAL,
-    "stub": worlda.STUB,
-    "assumptions": worlda.ASSUMPTIONS + ["keyword alphabet sampled from a tame and a wild pool; not exhaustive over keyword atoms"],
-    "expected_probes": ["deliveries"],
-}
+CONFIG = worlda.base_config(
+    rule="seeded grammar-directed histories (APPEND/STORE x {+,-,=} x SILENT/UID, body fetches, COPY/MOVE, deliveries, SEARCH by flag) over 1-3 "
+    "sessions taking turns; after every op an observer UID FETCH 1:* (FLAGS) and the raw .mh_sequences file are compared with the reference "
+    "model. non-trivial = >=1 flag-changing op acknowledged OK; distinct = distinct (actor, op-kind) sequence signatures",
+    level_text="seeded search over command histories and I/O schedules of the real per-user server under a virtual-time loop; every step is "
+    "compared with an executable reference model of IMAP flag semantics (STORE variants, implicit \\Seen, COPY/MOVE/delivery carry-over, "
+    "propagation to other sessions by their next NOOP/CHECK/IDLE). Exploration is the right level: the property quantifies over unbounded "
+    "histories and flag alphabets, which can only be sampled.",
+    expected_probes=["deliveries"],
+)
+CONFIG["assumptions"].append("keyword alphabet sampled from a tame pool (wild pool - atoms that collide with MH sequence names - in thorough tier); not exhaustive over keyword atoms")
 
 WEIGHTS = {
     "select": 2, "append": 3, "store": 8, "delete_flag": 1, "fetch": 4, "search": 3, "expunge": 1, "copy": 2, "move": 1,
